@@ -33,7 +33,9 @@ def gen_target(rng, depth_in_root, n):
                         "double-encoded-last-segment", "double-encoded-last-segment", "leading-slashes", "compat-chars-last-segment"])
     ups = rng.randint(1, 3)
     upseg = [rng.choice(UP) for _ in range(ups)]
-    tail = rng.choice(OUTSIDE_EXISTING + ["evil-%d" % n, "evil-%d/" % n, "evil-%d/x.ics" % n, "sibling-cal/new-%d.ics" % n, "canary/new-%d.ics" % n])
+    tail = rng.choice(OUTSIDE_EXISTING + ["evil-%d" % n, "evil-%d/" % n, "evil-%d/x.ics" % n, "sibling-cal/new-%d.ics" % n, "canary/new-%d.ics" % n,
+                                          # siblings whose names begin with the name of the data root ('root'): a prefix test on strings lets them through
+                                          "root-archive/new-%d/" % n, "root-archive/new-%d" % n, "root2x/new-%d/" % n, "rootkit-%d/" % n, "root-archive/kept.txt"])
     if shape == "double-encoded-last-segment":
         # the whole escape hides in the last segment, percent-encoded twice
         col = rng.choice(["/user/calendars/cal0/", "/user/contacts/ab0/", "/top/"])
@@ -197,6 +199,10 @@ def run_shard(args):
     try:
         # surroundings
         os.makedirs(os.path.join(base, "canary", "sub"))
+        for sib in ("root-archive", "root2x"):
+            os.makedirs(os.path.join(base, sib))
+        with open(os.path.join(base, "root-archive", "kept.txt"), "w") as f:
+            f.write("sibling of the root " + CANARY + "\n")
         for rel in ("canary/secret.txt", "canary/sub/deep.txt", "outside.ics"):
             with open(os.path.join(base, rel), "w") as f:
                 f.write("BEGIN:VCALENDAR\r\nX-SECRET:" + CANARY + "\r\nEND:VCALENDAR\r\n")
